@@ -18,7 +18,8 @@ RULE = ("Hypothesis histories (<= 10 operations) of addfilter/updatefilter/repla
         "str(fs2). Non-trivial = >= 2 filters or a disabled filter or a description; distinct by history.")
 
 NAME_ALPHA = ["a", "B", "1", " ", "é", "€", "#", ":", '"', "\\", "{", "}", ";", "/*", "😀", "-", ".", "(", "[", ","]
-PREFIXES = [None, ("# rule:", "# about:"), ("#N=", "#D="), ("# Filter: ", "# Description: "), ("#>", "#<")]
+PREFIXES = [None, ("# rule:", "# about:"), ("#N=", "#D="), ("# Filter: ", "# Description: "), ("#>", "#<"),
+            ("# [rule] ", "# (desc) "), ("#** ", "#++ "), ("# Rule? ", "# Desc. "), ("#\\n ", "#\\d ")]
 
 
 def text_ok(s, prefixes):
